@@ -54,7 +54,16 @@ Ins(n)        == Names(n.inputs)
 Outs(n)       == Names(n.outputs) \cup Names(n.emit)     \* data outputs and emitted signals
 IsGate(n)     == n.kind \in {"route", "ifelse"}
 Exclusive(n)  == n.kind = "ifelse" \/ (n.kind = "route" /\ ~n.multi)
-StrTargets(n) == Names(n.targets) \ {"END"}              \* "END" denotes the END sentinel
+\* "END" denotes the END sentinel; a route gate's fallback is one more target ("Add fallback to targets")
+StrTargets(n) == (Names(n.targets) \cup (IF n.fallback = None THEN {} ELSE {n.fallback})) \ {"END"}
+(* gate DEFINITION rules, checked by the node constructors (docs/06-api-reference/gates.md: routing   *)
+(* functions are plain synchronous functions; the string "END" is not a target -- use the END        *)
+(* sentinel --; a route gate needs at least one target; fallback and multi_target exclude each other) *)
+EndStr == "~ENDSTR"
+GateDefOK(n) ==
+  /\ n.fnkind = "plain"
+  /\ EndStr \notin Names(n.targets) /\ n.fallback # EndStr
+  /\ n.kind = "route" => Len(n.targets) > 0 /\ ~(n.multi /\ n.fallback # None)
 NodeNames(p)  == {Node(p, i).name : i \in Idx(p)}
 ByName(p, s)  == CHOOSE i \in Idx(p) : Node(p, i).name = s
 AllOuts(p)    == UNION {Outs(Node(p, i)) : i \in Idx(p)}
@@ -227,7 +236,9 @@ Scan(p, path, impl, k) ==
   ELSE IF Node(p, k).kind = "graph"
        THEN LET v == Scan(Node(p, k).sub[1], path \o "/" \o Node(p, k).name, impl, 1)
             IN IF v.valid THEN Scan(p, path, impl, k + 1) ELSE v
-       ELSE Scan(p, path, impl, k + 1)
+       ELSE IF IsGate(Node(p, k)) /\ ~GateDefOK(Node(p, k))      \* the node constructor raises before the graph exists
+            THEN [valid |-> FALSE, reason |-> "gate-definition", where |-> path]
+            ELSE Scan(p, path, impl, k + 1)
 
 Valid(p)   == Scan(p, "", FALSE, 1).valid
 Verdict(p) == LET d == Scan(p, "", FALSE, 1)
